@@ -344,6 +344,23 @@ def harness_flags():
     return [f for f in vlib.HARNESS_FLAGS if f not in ("-O1", "-g")] + ["-O0", "-g1"]
 
 
+def build_with_fallback(ctx, harness_src):
+    """full harness; if the internal routines no longer have the signatures it calls, a public-API-only build
+    (-DV8_NO_ROUTINES): the routine-level tie is then reported as broken, the search for a failing input goes on"""
+    binary, log = ctx.build_harness(harness_src, name=harness_name(harness_src), extra=["-DV0810_HASH=" + hdr_hash()],
+                                    flags=harness_flags())
+    if binary:
+        return binary, True, log
+    b2, log2 = ctx.build_harness(harness_src, name=harness_name(harness_src) + "-api", extra=["-DV0810_HASH=" + hdr_hash(), "-DV8_NO_ROUTINES"],
+                                 flags=harness_flags())
+    if b2:
+        errs = [l for l in log.split("\n") if "error" in l][:6]
+        ctx.broken("harness-build:routines", "harness %s (direct calls of the internal routines)" % harness_src,
+                   "the internal routines no longer have the signatures the harness calls; routine-level correspondence "
+                   "unavailable, public-API legs only: " + " | ".join(errs)[-900:])
+    return b2, False, (log if not b2 else log2)
+
+
 def harness_name(src):
     """cache name of the harness binary; VERIF_HARNESS_TAG keeps scratch-copy runs (TAPKEE_REPO=...) from evicting the
     cached build of the real tree"""
@@ -361,6 +378,8 @@ def hdr_hash():
 def classify(io, v):
     """-> (class, signature, text)"""
     res = v.get("res", "BADCASE:no-verdict")
+    if io.startswith("unavailable=1"):
+        return "skip", "routine-unavailable", "routine-level call unavailable in the fallback harness build"
     if io.startswith("abort:"):
         return "fail", io, "implementation aborts (%s); model: %s" % (io[6:], v.get("model", "?"))
     if res == "ok":
@@ -382,7 +401,7 @@ def classify(io, v):
 def generic_correspond(ctx, harness_src, exe, prop, plan_fn, build_line, label, what_text, min_points, batch=40, budget_s=60):
     import os
     import time
-    binary, log = ctx.build_harness(harness_src, name=harness_name(harness_src), extra=["-DV0810_HASH=" + hdr_hash()], flags=harness_flags())
+    binary, routines_ok, log = build_with_fallback(ctx, harness_src)
     if not binary:
         ctx.broken("harness-build", "harness " + harness_src, "harness does not compile against the repository: " + log[-1500:])
         return
@@ -454,6 +473,9 @@ def generic_correspond(ctx, harness_src, exe, prop, plan_fn, build_line, label, 
                 if l.startswith("op="):
                     replay_line(l)
     specs = plan_fn(ctx, ctx.rng, quick)
+    if not routines_ok:
+        ctx.stat("routine-level-cases-dropped", len([s for s in specs if s["op"] != "embed"]))
+        specs = [s for s in specs if s["op"] == "embed"]
     reported = set()
     for i in range(0, len(specs), batch):
         chunk = specs[i:i + batch]
